@@ -138,6 +138,69 @@ theorem multi_match_filtered (c i : Nat) (files : List Str) (hlen : files.length
     selectFiles h (some (c, i)) files = selection h c i files := by
   simp [selectFiles, hlen, selection]
 
+/-! ### where the configuration comes from (flags, `SLT_PARTITION_*`, the CI system's variables) -/
+
+/-- **The CI system's variables are consulted only when neither `SLT_PARTITION_*` variable is set** … -/
+theorem ci_ignored_when_slt_set (s : PartSources) (hs : s.sltId.isSome = true ∨ s.sltCount.isSome = true) :
+    importCi s = (s.sltCount, s.sltId) := by
+  unfold importCi
+  rcases hs with hs | hs <;> simp [hs]
+
+/-- … **and only as a pair**: with one of the two missing nothing is imported. -/
+theorem ci_needs_both (s : PartSources) (h1 : s.sltId = none) (h2 : s.sltCount = none)
+    (hb : s.bkId = none ∨ s.bkCount = none) : importCi s = (none, none) := by
+  unfold importCi
+  simp only [h1, h2, Option.isSome_none, Bool.or_self, Bool.false_eq_true, if_false]
+  rcases hb with hb | hb
+  · rw [hb]
+  · rw [hb]; cases s.bkId <;> rfl
+
+theorem ci_pair_imported (s : PartSources) (h1 : s.sltId = none) (h2 : s.sltCount = none) (i c : Str)
+    (hi : s.bkId = some i) (hc : s.bkCount = some c) : importCi s = (some c, some i) := by
+  unfold importCi
+  simp [h1, h2, hi, hc]
+
+/-- **A count given through `SLT_PARTITION_COUNT` alone stays a count without an id** — it is not
+completed by the CI system's job number — and is rejected. -/
+theorem slt_count_alone_rejected (s : PartSources) (c : Str) (n : Nat)
+    (hfc : s.flagCount = none) (hfi : s.flagId = none) (hsi : s.sltId = none)
+    (hsc : s.sltCount = some c) (hn : parseU64 c = some n) :
+    partitionFromSources s = .error () := by
+  have hci : importCi s = (some c, none) := by
+    unfold importCi
+    simp [hsc, hsi]
+  unfold partitionFromSources effectivePart
+  simp only [hci, hfc, hfi, Option.orElse_none, hn]
+  rfl
+
+/-- **Flags win over the environment**: with both flags given the environment is irrelevant. -/
+theorem flags_win (s : PartSources) (c i : Str) (hc : s.flagCount = some c) (hi : s.flagId = some i) :
+    effectivePart s = (some c, some i) := by
+  unfold effectivePart
+  simp [hc, hi]
+
+/-- **A value that is not a number is rejected** (count or id, from any source). -/
+theorem non_numeric_rejected (s : PartSources) (t : Str)
+    (h : (effectivePart s).1 = some t ∨ (effectivePart s).2 = some t) (hn : parseU64 t = none) :
+    partitionFromSources s = .error () := by
+  unfold partitionFromSources
+  rcases h with h | h
+  · simp only [h, hn]
+  · simp only [h, hn]
+    split
+    · rename_i h1 h2; cases h2
+    · rfl
+
+-- the CI pair is used when nothing else is given; one SLT variable switches it off
+#guard (match partitionFromSources { bkCount := some (kw "4"), bkId := some (kw "1") } with
+  | .ok (some (4, 1)) => true | _ => false)
+#guard (match partitionFromSources { sltCount := some (kw "2"), bkCount := some (kw "2"), bkId := some (kw "0") } with
+  | .error _ => true | _ => false)
+#guard (match partitionFromSources { flagCount := some (kw "3"), bkCount := some (kw "2"), bkId := some (kw "1") } with
+  | .ok (some (3, 1)) => true | _ => false)
+#guard (match partitionFromSources { sltId := some (kw "1"), bkCount := some (kw "2"), bkId := some (kw "0") } with
+  | .ok none => true | _ => false)
+
 -- Non-vacuity (executable SipHash: tests)
 #guard pathHash (kw "tests/slt/basic.slt") = 9565749753920301976
 #guard (selection pathHash 3 0 [kw "a.slt", kw "b.slt", kw "c.slt", kw "d.slt"]).length +
